@@ -315,11 +315,26 @@ def rule_bump_allocators(ck, facts, R):
                 f2 = place_fields(s[5][1][1])
                 if f2 and f2[-1] and "MemoryLayout::" in f2[-1]:
                     sizers.add(f2[-1])
+    # a region is named by where it starts (the constant its allocator is initialised with), not by the field's name
+    starts = {}
+    for fn in lang.fns:
+        if "compiler::wasmgen" not in fn.path or fn.kind == "promoted":
+            continue
+        for b, s in fn.all_stmts():
+            if s[KIND] == "a" and s[5][0] == "agg" and s[5][1][0] == "adt" and s[5][1][1].endswith("::MemoryLayout"):
+                adt_ = facts.adt(s[5][1][1]) or {}
+                fl_ = (adt_.get("variants") or [{"f": []}])[0]["f"]
+                di_ = DefIndex(fn)
+                for i_, o in enumerate(s[5][2]):
+                    r_ = ("const", o) if o[0] == "c" else di_.resolve(o)
+                    if r_[0] == "const" and i_ < len(fl_) and len(r_[1]) > 3 and r_[1][1] == "i":
+                        starts[fl_[i_][0]] = r_[1][3]
     for fld, ws in sorted(writes.items()):
         adv = [w for w in ws if w[2] == "advance"]
         if not adv:
             continue
         name = fld.split("::")[-1]
+        name = ("region@%s" % starts[name]) if name in starts else name
         if fld in sizers:
             ck.ok(R, "bump|%s" % name, {"field": fld, "advance_sites": len(adv), "bounded_by": "the linear memory is sized from its final value"})
         elif compares.get(fld):
